@@ -88,6 +88,8 @@ def run_unit(unit, tier, seed):
         E.explore(lambda _E: unit.run(I), on_path=lambda _E, rec: unit.on_path(I, rec))
     except Unsupported as e:
         res.undecided.append('unsupported: %s' % e)
+        if os.environ.get('VERIF_DEBUG'):
+            traceback.print_exc()
     except EngineError as e:
         res.errors.append('engine error: %s' % e)
     except PyRaise as e:
